@@ -112,6 +112,12 @@ def tie_status(untranslated):
         witness = [l[:600] for l in o2.splitlines() if l.startswith("DIFF")][:12]
         if rc != 0 and not witness:
             witness = ["function-level search did not run: " + o2[-300:]]
+        if rc == 0 and not witness:
+            # the proof script no longer goes through, but the translated functions and the model's
+            # agree on every grid point: nothing says the code changed behaviour.  The tie by
+            # translation is UNPROVEN for these functions (not broken); the correspondence check
+            # carries the tie and searches harder (DESIGN.md 15.3)
+            return [], lost + broken, ["tie theorems " + ", ".join(broken) + " do not check although the translated functions agree with the model on the whole grid (rewritten source?)"]
     return broken, lost, witness
 
 
@@ -278,8 +284,9 @@ def check_property(pid, tier, seed):
                                 " (BS/Proofs/GenTie.lean) no longer equal the model's; function-level search: " +
                                 (" | ".join(tie_witness) if tie_witness else "no differing argument found on the grid"))
         if tie_lost:
-            notes.append("tie by translation not available for " + ", ".join(tie_lost) + " (source outside the translator's subset: " +
-                         "; ".join(l for l in tr_out.splitlines() if "not translated" in l)[:300] + "); the correspondence check carries the tie, searching harder")
+            notes.append("tie by translation not available for " + ", ".join(tie_lost) + " (source outside the translator's subset / proof does not follow a rewrite: " +
+                         "; ".join([l for l in tr_out.splitlines() if "not translated" in l] + (tie_witness if not tie_broken else []))[:400] +
+                         "); the correspondence check carries the tie, searching harder")
         targets = ["driver"] + cfg.get("lean_modules", [])
         ok, out = step_lake(targets)
         lake_ok = ok
